@@ -291,6 +291,32 @@ CLAIMED['C11'] = dict(
               'correspondence with live objects + history/thread exploration on the real code',
     ref='DESIGN.md 7 (C11)')
 
+CLAIMED['C02'] = dict(
+    text='Lean 4: the documented recognition rules are stated on their own (Spec/Pipeline.lean: '
+         'built-ins by exact tag, lists and dicts element-wise with string or string-like keys, unions '
+         'member-wise, a class by itself or a registered descendant, a parameter by its key or the '
+         'dashed key or a default, enums / string-likes by scalar kind) and proved equivalent to the '
+         'recogniser model: for every class model without custom recognisers, every node without user '
+         'tags and every type, recognition finds at least one type iff the node is in that language '
+         '(recognizeReq_iff_matches, induction over the recogniser\'s recursion; true only of the '
+         'recogniser as repaired by F19). Corollaries: a document outside the language of the declared '
+         'type is rejected with a RecognitionError, a document that loads is inside it, anything but '
+         'exactly one recognised type is an error; after savorising every required parameter is '
+         'present and typed, every key is a string naming a parameter unless the class takes '
+         '_yatiml_extra; the constructor gets only entries of the document (defaults are Python\'s), '
+         'extras as one mapping in document order. PARTIAL: the single end-to-end theorem "loads iff '
+         'the reference pipeline loads, with the same value" (uniqueness at every level, seasoned '
+         'models) is not proved; it is decided on the real code against an independent reference '
+         'pipeline (harness/pipeline_oracle.py) on generated (model, document) pairs and on ALL small '
+         'documents of five fixed models. ' + LOADER_TIE,
+    note=NOTE_COMMON + 'the reference pipeline runs savorize hooks as given and uses PyYAML\'s '
+         'SafeConstructor for scalars and plain data; merge keys, repeated keys and the reserved keys '
+         '_yatiml_extra / self are outside the reference (skipped and counted).',
+    technique='Lean 4 proof (specification of the documented rules + equivalence with the recogniser '
+              'model by induction) + independent reference pipeline on generated and exhaustively '
+              'enumerated small documents + differential correspondence',
+    ref='DESIGN.md 7 (C02)')
+
 NOT_YET = 'check not built yet in this round (planned proof: DESIGN.md section 7)'
 
 
